@@ -1,6 +1,6 @@
 # Sizing and claim for C18 (failed operations leave target and arguments unchanged)
 SPEC = {
-    "quick": {"rc_cases": 4000, "rc_procs": 8},
+    "quick": {"rc_cases": 20000, "rc_procs": 12},
     "thorough": {"rc_cases": 100000, "rc_procs": 12, "fuzz_secs": 180, "fuzz_workers": 8},
     "assumptions": [
         "the property is conditional on the operation throwing one of the four named exception types; whether an input must be rejected is C02/C10/C15's business",
